@@ -230,9 +230,12 @@ def run(plan: dict) -> dict:
         raised = None
         proto = None
         if fault and inj is not None:
-            k = int(fault["k"]) if "k" in fault else int(float(fault["k_frac"]) * nsites)
             E = exc_class(fault.get("exc", "SimFault"))
-            inj.start(k, lambda: E("sim: injected"))
+            if "region" in fault:
+                inj.start(None, lambda: E("sim: injected"), region=tuple(fault["region"]))
+            else:
+                k = int(fault["k"]) if "k" in fault else int(float(fault["k_frac"]) * nsites)
+                inj.start(k, lambda: E("sim: injected"))
         t_conv = time.perf_counter()
         try:
             proto = to_onnx(prog.fn, list(prog.inputs), **kw)
@@ -303,6 +306,7 @@ def run(plan: dict) -> dict:
 # coordinator side
 # ---------------------------------------------------------------------------
 
+FAULT_REGIONS = ["_lower_and_call", "wrapped", "lower_equation_with_plugin", "lower_jaxpr_with_plugins", "_activate_full_plugin_worlds_for_body", "_build_and_finalize_ir_model", "_trace_to_jaxpr", "apply_monkey_patches", "user_interface", "to_onnx"]
 FX = ["flat", "flat_f64", "net", "outer", "fn_boundary", "fn_kw", "eqx_block", "plain", "ublock_pair", "two_same", "two_diff", "kwblock", "resconv_nchw", "resconv", "chanattn_nchw", "transpose_forest", "reshape_chain", "cf_cond", "cf_fori", "cf_while", "cf_scan", "cf_nested", "fn_boundary_f64"]
 _BIAS = ("nchw", "transpose", "conv", "resblock", "attention", "onnx_functions", "reshape", "vit", "cnn")
 
@@ -339,7 +343,12 @@ def gen_run(seed: int, run: int, reqs: list[dict], n_meas: int) -> dict:
         u = r.random()
         if u < 0.25:
             other = r.choice(reqs)
-            ops.append({**other, "fault": {"k_frac": round(r.random(), 6), "exc": r.choice(["SimFault", "SimInterrupt"])}})
+            if r.random() < 0.5:
+                ops.append({**other, "fault": {"k_frac": round(r.random(), 6), "exc": r.choice(["SimFault", "SimInterrupt"])}})
+            else:
+                # a fault inside a named region (function-body trace / lowering, finalisation ...) of a program with functions
+                fn_reqs = [q_ for q_ in reqs if any(t in q_["pid"] for t in ("outer", "net", "fn_", "two_", "kwblock", "ublock", "eqx_block", "plain", "onnx_functions"))] or reqs
+                ops.append({**r.choice(fn_reqs), "fault": {"region": [r.choice(FAULT_REGIONS), r.randrange(0, 40)], "exc": r.choice(["SimFault", "SimInterrupt"])}})
         elif u < 0.35:
             ops.append({"op": "gc"})
         elif u < 0.5:
